@@ -272,7 +272,8 @@ pub fn case_strategy(prop: &str, tier: Tier) -> BoxedStrategy<Case> {
     let cfg = (
         prop_oneof![10 => Just(1u64), 6 => 2u64..=10, 3 => Just(100u64), 2 => Just(1000u64), 1 => 1u64..5000, 1 => Just(0u64)],
         prop_oneof![3 => Just(0u64), 3 => Just(1u64), 8 => 2u64..40, 3 => 40u64..3000],
-        1u8..4,
+        // a zero unbonding period is legal: the claim is mature at once
+        prop_oneof![1 => Just(0u8), 5 => 1u8..4],
         proptest::bool::weighted(0.4),
     )
         .prop_map(|(tpw, min_bond, unbond_blocks, cw20)| StakeCfg { tpw, min_bond, unbond_blocks, cw20 });
@@ -320,8 +321,11 @@ enum X {
 
 impl World {
     fn new(stake: Option<StakeCfg>) -> World {
-        let d = Direct::new();
+        let mut d = Direct::new();
         let addrs: Vec<Addr> = (0..N_ADDR).map(|i| d.api.addr_make(&format!("member{i}"))).collect();
+        // the chain-level (wasm module) admin of the group contract is a pool address; the role gives no
+        // rights inside the contract
+        d.chain_admin = Some(addrs[2].clone());
         let mut addr_strs: Vec<String> = addrs.iter().map(|a| a.to_string()).collect();
         addr_strs.push("x".to_string());
         addr_strs.push(addrs[0].to_string().to_uppercase());
@@ -527,7 +531,10 @@ fn check_c09_heights(
     let prop = "C09";
     let qerr = |e: String| v(prop, "query-failed", format!("{at}: a query failed or panicked: {e}"));
     let mut n = 0u64;
-    for h in heights {
+    // "for every h from before instantiation into the future": besides the window around the history, the far
+    // ends of the range whenever the window reaches past the present (i.e. the open block is complete)
+    let far: Vec<u64> = if *heights.end() > w.d.height { vec![0, 1, u64::MAX - 1, u64::MAX] } else { vec![] };
+    for h in heights.chain(far.into_iter()) {
         let st = state_before(hist, h);
         for a in w.addr_strs.iter().take(N_ADDR as usize) {
             let got = w.member(a, Some(h)).map_err(qerr)?;
@@ -1312,7 +1319,7 @@ pub fn decode_case(prop: &str, u: &mut arbitrary::Unstructured) -> Case {
             2 => 2 + arb_below(u, 38) as u64,
             _ => 40 + u.arbitrary::<u16>().unwrap_or(0) as u64 % 2960,
         };
-        let unbond_blocks = 1 + arb_below(u, 3) as u8;
+        let unbond_blocks = if arb_bool(u, 1, 6) { 0 } else { 1 + arb_below(u, 3) as u8 };
         let cw20 = arb_bool(u, 2, 5);
         let admin = d_opt_addr(u, 24);
         let blocks = d_blocks(u, prop, false);
